@@ -10,6 +10,8 @@ static void honest_gen(Plan *p, uint64_t run_seed, uint64_t variant, int tier)
 	rng_seed(&g, run_seed, 0x401);
 	gen_common(p, &g, tier);
 	gen_rounds(p, &g, tier, tier ? 12 : 6, 50000);
+	/* TLCP clients may run without trust anchors (the tool's -cacert is optional) */
+	if (p->proto == P_TLCP && !p->mutual && rng_chance(&g, 1, 5)) p->cred_mode = 2;
 }
 
 void honest_oracle(const Plan *p, const HonestOut *o, RunResult *r)
